@@ -67,21 +67,38 @@ type staleOp struct {
 	Name string
 	Op   opSpec
 	Tgt  string // pid | alias
+	// Important: run with the process option ImportantDelivery switched on
+	Important bool
 }
 
 func staleOps() []staleOp {
 	return []staleOp{
-		{"send-pid", opSpec{"send-pid", "send", "pid"}, "pid"},
-		{"call-pid", opSpec{"call-pid", "call", "pid"}, "pid"},
-		{"link-pid", opSpec{"link-pid", "link", "pid"}, "pid"},
-		{"monitor-pid", opSpec{"monitor-pid", "monitor", "pid"}, "pid"},
-		{"sendexit-pid", opSpec{"sendexit-pid", "sendexit", "pid"}, "pid"},
-		{"sendresponse-pid", opSpec{"sendresponse-pid", "respond", "pid"}, "pid"},
-		{"sendresponseerror-pid", opSpec{"sendresponseerror-pid", "responderr", "pid"}, "pid"},
-		{"send-alias", opSpec{"send-alias", "send", "alias"}, "alias"},
-		{"call-alias", opSpec{"call-alias", "call", "alias"}, "alias"},
-		{"link-alias", opSpec{"link-alias", "link", "alias"}, "alias"},
-		{"monitor-alias", opSpec{"monitor-alias", "monitor", "alias"}, "alias"},
+		{"send-pid", opSpec{"send-pid", "send", "pid"}, "pid", false},
+		{"call-pid", opSpec{"call-pid", "call", "pid"}, "pid", false},
+		{"link-pid", opSpec{"link-pid", "link", "pid"}, "pid", false},
+		{"monitor-pid", opSpec{"monitor-pid", "monitor", "pid"}, "pid", false},
+		{"sendexit-pid", opSpec{"sendexit-pid", "sendexit", "pid"}, "pid", false},
+		{"sendresponse-pid", opSpec{"sendresponse-pid", "respond", "pid"}, "pid", false},
+		{"sendresponseerror-pid", opSpec{"sendresponseerror-pid", "responderr", "pid"}, "pid", false},
+		{"send-alias", opSpec{"send-alias", "send", "alias"}, "alias", false},
+		{"call-alias", opSpec{"call-alias", "call", "alias"}, "alias", false},
+		{"link-alias", opSpec{"link-alias", "link", "alias"}, "alias", false},
+		{"monitor-alias", opSpec{"monitor-alias", "monitor", "alias"}, "alias", false},
+		// important delivery: explicit calls ...
+		{"sendimportant-pid", opSpec{"sendimportant-pid", "sendimportant", "pid"}, "pid", false},
+		{"sendimportant-alias", opSpec{"sendimportant-alias", "sendimportant", "alias"}, "alias", false},
+		{"callimportant-pid", opSpec{"callimportant-pid", "callimportant", "pid"}, "pid", false},
+		{"callimportant-alias", opSpec{"callimportant-alias", "callimportant", "alias"}, "alias", false},
+		// ... and the process option ImportantDelivery around the plain operations
+		{"send-pid+important-option", opSpec{"send-pid+important-option", "send", "pid"}, "pid", true},
+		{"send-alias+important-option", opSpec{"send-alias+important-option", "send", "alias"}, "alias", true},
+		{"call-pid+important-option", opSpec{"call-pid+important-option", "call", "pid"}, "pid", true},
+		{"call-alias+important-option", opSpec{"call-alias+important-option", "call", "alias"}, "alias", true},
+		{"link-pid+important-option", opSpec{"link-pid+important-option", "link", "pid"}, "pid", true},
+		{"monitor-pid+important-option", opSpec{"monitor-pid+important-option", "monitor", "pid"}, "pid", true},
+		{"sendexit-pid+important-option", opSpec{"sendexit-pid+important-option", "sendexit", "pid"}, "pid", true},
+		{"sendresponse-pid+important-option", opSpec{"sendresponse-pid+important-option", "respond", "pid"}, "pid", true},
+		{"sendresponseerror-pid+important-option", opSpec{"sendresponseerror-pid+important-option", "responderr", "pid"}, "pid", true},
 	}
 }
 
@@ -142,8 +159,8 @@ func runIncarnationCase(reg uint16, ic incCase) {
 	}
 	// sanity: the identifiers work against the incarnation that minted them
 	if v.incon == "" {
-		for _, so := range []staleOp{{"call-pid", opSpec{"call-pid", "call", "pid"}, "pid"}, {"call-alias", opSpec{"call-alias", "call", "alias"}, "alias"}} {
-			r, ok := p.doOn(p.obs, so.Op, tgt.value(so.Tgt), 5)
+		for _, so := range []staleOp{{"call-pid", opSpec{"call-pid", "call", "pid"}, "pid", false}, {"call-alias", opSpec{"call-alias", "call", "alias"}, "alias", false}, {"callimportant-pid", opSpec{"callimportant-pid", "callimportant", "pid"}, "pid", false}, {"send-pid+important-option", opSpec{"send-pid+important-option", "send", "pid"}, "pid", true}} {
+			r, ok := p.doCmd(p.obs, opCmd{Op: so.Op, Target: tgt.value(so.Tgt), Timeout: 5, Important: so.Important})
 			if !ok || r.Err != nil {
 				v.incon = fmt.Sprintf("setup: %s against the old incarnation: ok=%v err=%v", so.Name, ok, r.Err)
 			}
@@ -228,7 +245,7 @@ func runIncarnationCase(reg uint16, ic incCase) {
 		if so.Tgt == "alias" {
 			tv = oldAlias
 		}
-		cmd := opCmd{Op: so.Op, Target: tv, Timeout: 1}
+		cmd := opCmd{Op: so.Op, Target: tv, Timeout: 1, Important: so.Important}
 		if so.Op.Kind == "respond" || so.Op.Kind == "responderr" {
 			cmd.Target = oldFrom
 			cmd.Ref = oldRef
@@ -295,11 +312,15 @@ func runIncarnationCase(reg uint16, ic incCase) {
 		if !quiet {
 			v.incon = "watchdog: new incarnation not quiescent"
 		}
+		// the new target may have seen the two synchronising calls and nothing else
+		syncSeen := 0
 		for _, s := range tgt2.seen() {
 			events++
-			if !strings.HasPrefix(s, "call ping from") {
-				v.violate("stale-id-delivered", "target of the new incarnation received: "+s)
+			if strings.HasPrefix(s, "call ping from") && syncSeen < 2 {
+				syncSeen++
+				continue
 			}
+			v.violate("stale-id-delivered", "target of the new incarnation received: "+s)
 		}
 		for i, h := range helpers2 {
 			for _, s := range *h.got {
